@@ -1,5 +1,6 @@
 #include "Compiler/include/lexer.hpp"
 #include "Compiler/include/scan.hpp"
+#include "VM/include/verif_hook.hpp"
 
 using namespace Theo;
 
@@ -53,6 +54,7 @@ ScanResult Theo::scan(std::map<FileName, FileContent> files, FileName main) {
 
     Token t;
     int d = yylex(&t, s.s);
+    THEO_VERIF_POINT(SCAN_TOKEN, lex_stack.size(), res.size());
 
     // EOF for this file
     if (d == 0) {
